@@ -7,7 +7,7 @@ from .C05 import PACK, UNPACK
 
 META = {
     'title': 'Bits: reverse_byte formula tabulated on 0..255, hex nibble table, constructor/load branches, size setter invariant, conversions, pack/unpack accumulation terms',
-    'expected_min': 20,
+    'expected_min': 84,
     'explanation': 'reverse_byte is tabulated on all 256 bytes against bit reversal and hextab_r against the LSB-first binary of each nibble; '
                    'constructor, load, size setter, bit/int/str/bytes/hex/todots/bitlist/iteration/equality and pack/unpack are normalised and compared '
                    'with restatements of the documented semantics (bit 0 = LSB of ival, bit-stream byte order, k-byte big-endian groups accumulated '
